@@ -473,6 +473,34 @@ fn gen_project(rng: &mut Rng, out: &mut Out) -> Project {
         let cc = if rng.chance(1, 2) { Some("__stdcall") } else { None };
         subs.push(sub(&format!("f{}", i), &format!("fn{}", i), blocks, cc));
     }
+    if n_subs >= 2 && rng.chance(1, 3) {
+        // replace the last function by a "guard" function: its only access to a parameter register
+        // is the condition of the conditional jump of its entry block; the return lies behind the
+        // fall-through edge, the taken edge, or both
+        out.count("fn:guard");
+        let i = n_subs - 1;
+        let r = PARAM[rng.below(6) as usize];
+        let cond = match rng.below(3) {
+            0 => e_bin(BinOpType::IntEqual, e_var(r, 8), e_const(rng.below(4), 8)),
+            1 => e_bin(BinOpType::IntSLess, e_bin(BinOpType::IntAnd, e_var(r, 8), e_const(0xff, 8)), e_const(7, 8)),
+            _ => e_un(UnOpType::BoolNegate, e_bin(BinOpType::IntLess, e_var(r, 8), e_var("RAX", 8))),
+        };
+        let orientation = rng.below(3);
+        let n = |b: usize| format!("f{}_b{}", i, b);
+        let ret = |b: usize| blk(&n(b), vec![], vec![j_return(&format!("{}_j0", n(b)), Expression::Var(tmp("$ret", 8)))]);
+        let dead = |b: usize, looping: bool| {
+            if looping {
+                blk(&n(b), vec![], vec![j_branch(&format!("{}_j0", n(b)), &n(b))])
+            } else {
+                blk(&n(b), vec![], vec![])
+            }
+        };
+        let looping = rng.chance(1, 2);
+        let taken = if orientation == 0 { dead(1, looping) } else { ret(1) };
+        let fall = if orientation == 1 { dead(2, looping) } else { ret(2) };
+        let b0 = blk(&n(0), vec![], vec![j_cbranch(&format!("{}_j0", n(0)), &n(1), cond), j_branch(&format!("{}_j1", n(0)), &n(2))]);
+        subs[i] = sub(&format!("f{}", i), &format!("fn{}", i), vec![b0, taken, fall], None);
+    }
     let externs: Vec<ExternSymbol> = exts
         .iter()
         .map(|s| extern_symbol(&format!("x_{}", s.name), s.name, s.params.clone(), vec![reg_arg("RAX")], s.no_return))
@@ -545,6 +573,62 @@ fn directed_projects() -> Vec<Project> {
             b0.term.defs = b0_defs;
             let b1 = blk("f0_b1", vec![], vec![ret()]);
             v.push(project_x64(program(vec![sub("f0", "fn0", vec![b0, b1], None)], externs, vec![tid("f0")])));
+        }
+    }
+    v.extend(directed_guard_projects());
+    v
+}
+
+/// Directed guard shapes: the ONLY access of the callee `f2` to RDX is the condition of a conditional
+/// jump; its `Return` lies only behind the fall-through edge, only behind the taken edge, or behind
+/// both; the other side is a dead end (endless loop or block without jump). `f1` calls `f2` and `f0`
+/// calls `f1`, both without touching RDX: the register must be reported for all three functions
+/// (guard read in the function itself, one and two call levels up).
+fn directed_guard_projects() -> Vec<Project> {
+    let mut v = Vec::new();
+    let conds: Vec<Expression> = vec![
+        e_bin(BinOpType::IntEqual, e_var("RDX", 8), e_const(0, 8)),
+        e_bin(BinOpType::IntSLess, e_const(5, 8), e_bin(BinOpType::IntAnd, e_var("RDX", 8), e_const(0xff, 8))),
+        e_un(UnOpType::BoolNegate, e_bin(BinOpType::IntLess, e_var("RDX", 8), e_var("RAX", 8))),
+    ];
+    let ret = |t: &str| j_return(t, Expression::Var(tmp("$ret", 8)));
+    for cond in conds.iter() {
+        for orientation in 0..3 {
+            for dead_kind in 0..2 {
+                for alone in [false, true] {
+                    if alone && orientation != 1 {
+                        continue; // a CBranch without second jump has only the taken side
+                    }
+                    let dead = |name: &str| {
+                        if dead_kind == 0 {
+                            blk(name, vec![], vec![j_branch(&format!("{}_j0", name), name)])
+                        } else {
+                            blk(name, vec![d_assign(&format!("{}_d0", name), var("RAX", 8), e_const(1, 8))], vec![])
+                        }
+                    };
+                    // f2_b1 = taken side, f2_b2 = fall-through side
+                    let taken = if orientation == 0 { dead("f2_b1") } else { blk("f2_b1", vec![], vec![ret("f2_b1_j0")]) };
+                    let fall = if orientation == 1 { dead("f2_b2") } else { blk("f2_b2", vec![], vec![ret("f2_b2_j0")]) };
+                    let mut jmps = vec![j_cbranch("f2_b0_j0", "f2_b1", cond.clone())];
+                    if !alone {
+                        jmps.push(j_branch("f2_b0_j1", "f2_b2"));
+                    }
+                    let g = sub("f2", "guard", vec![blk("f2_b0", vec![], jmps), taken, fall], None);
+                    let caller = |i: usize| {
+                        sub(
+                            &format!("f{}", i),
+                            &format!("caller{}", i),
+                            vec![
+                                blk(&format!("f{}_b0", i), vec![d_assign(&format!("f{}_b0_d0", i), var("R10", 8), e_const(i as u64, 8))],
+                                    vec![j_call(&format!("f{}_b0_j0", i), &format!("f{}", i + 1), Some(&format!("f{}_b1", i)))]),
+                                blk(&format!("f{}_b1", i), vec![], vec![ret(&format!("f{}_b1_j0", i))]),
+                            ],
+                            None,
+                        )
+                    };
+                    v.push(project_x64(program(vec![caller(0), caller(1), g], vec![], vec![tid("f0")])));
+                }
+            }
         }
     }
     v
